@@ -1503,18 +1503,33 @@ package astits
 //@   ensures [C14,C13,C09] whole: tagCovered(d.Tag) && result1 == nil ==> wN(w) == n0 + 2 + dLen(d) && result0 == 2 + dLen(d) && aligned(w)
 //@   ensures [C14,C13,C09] prefix: wPrefix(w)
 
+// VBI data: a service occupies its id, a length byte and then one byte per line descriptor (known service ids) or one
+// reserved byte. The length function and the writer advance by exactly that per service (loop assertions); with one
+// service the announced length is that quantity. The descriptor is not part of dLen (no closed form for the sum).
+//@ func calcDescriptorVBIDataLength
+//@   requires d != nil ==> okVBIData(d)
+//@   loop 0 invariant [C14,C13,C09] idx: rangeindex == iter - 1 && iter <= len(d.Services) && 0 <= ret && ret <= 257 * iter && (iter == 0 ==> ret == 0) && (iter == 1 ==> ret == vbiSvcLen(d.Services[0]))
+//@   loop 0 assert [C14,C13,C09] step: ret == pre(ret) + vbiSvcLen(s)
+//@   ensures [C14,C13,C09] none: d == nil || len(d.Services) == 0 ==> result == 0
+//@   ensures [C14,C13,C09] one: d != nil && len(d.Services) == 1 ==> result == u8(vbiSvcLen(d.Services[0]))
+//@ func writeDescriptorVBIData
+//@   opt noloopframe
+//@   opt noframe
+//@   requires aligned(w) && 0 <= wN(w) && wN(w) < 0x100000000000 && okVBIData(d)
+//@   modifies writer(w)
+//@   loop 0 invariant [C14,C13,C09] idx: rangeindex == iter - 1 && iter <= len(d.Services) && aligned(w) && b.err == nil && b.w == w && wN(w) >= old(wN(w)) && wN(w) <= old(wN(w)) + 257 * iter && okVBIData(d)
+//@   loop 1 invariant [C14,C13,C09] lines: rangeindex == iter - 1 && iter <= len(item.Descriptors) && aligned(w) && b.err == nil && b.w == w && wN(w) == atentry(wN(w)) + iter && okVBIData(d) && vbiKnown(item.DataServiceID)
+//@   loop 0 assert [C14,C13,C09] step: wN(w) == pre(wN(w)) + vbiSvcLen(item)
+//@   ensures [C14,C13,C09] aligned: aligned(w) && result == nil
+
 // Not under contract (items of variable size, nested loops, pointer-to-slice bodies): nothing is assumed about
 // the lengths they compute or emit, and nothing is claimed for their tags.
 //@ extern calcDescriptorExtendedEventLength
 //@ extern calcDescriptorExtensionLength
-//@ extern calcDescriptorVBIDataLength
 //@ extern writeDescriptorExtendedEvent
 //@   modifies writer(w)
 //@   ensures [C14,C13,C09] prefix: wPrefix(w)
 //@ extern writeDescriptorExtension
-//@   modifies writer(w)
-//@   ensures [C14,C13,C09] prefix: wPrefix(w)
-//@ extern writeDescriptorVBIData
 //@   modifies writer(w)
 //@   ensures [C14,C13,C09] prefix: wPrefix(w)
 // END generated descriptor write contracts
